@@ -368,6 +368,8 @@ def evaluate_arithmetic(op, lval, rval):
         return lval
     if isinstance(rval, error.XLError):
         return rval
+    if isinstance(lval, list) and isinstance(rval, list) and len(lval) == 1 and len(rval) != 1:
+        lval = lval[0]  # a one-element array broadcasts like a scalar on either side
     if isinstance(lval, list):
         return OPERATOR_DICT[op](ExcelArrayOps(lval), rval)
     if isinstance(rval, list):
